@@ -396,6 +396,7 @@ type epReport struct {
 	Pairs      []string    `json:"pairs"`
 	Violations []Violation `json:"violations"`
 	Plan       *simsched.Plan `json:"plan,omitempty"` // failing plan, if any
+	FailRun    int         `json:"fail_run,omitempty"` // index of the run (0,1 = baselines) in which the first violation appeared
 	BaseA      [][]string  `json:"base_a,omitempty"` // sequential-baseline results (sampled episodes), for the run-alone reference
 	Done       bool        `json:"done,omitempty"`
 	Begin      bool        `json:"begin,omitempty"`
@@ -458,6 +459,7 @@ func checkEpisode(seed uint64, e int, ep *Episode, st *Sites, K int, emit func(r
 		rep.Violations = append(rep.Violations, Violation{Property: "C15", Oracle: oracle, Where: where, Detail: detail, Signature: oracle + ":" + sig})
 		if rep.Plan == nil {
 			rep.Plan = p
+			rep.FailRun = rep.Runs - 1
 		}
 	}
 	siteHit := make([]uint64, ns)
@@ -590,7 +592,13 @@ type ReplayFile struct {
 	WorkerNW        int            `json:"worker_stride,omitempty"`
 	WorkerK         int            `json:"worker_plans_per_episode,omitempty"`
 	BestEffort      bool           `json:"replay_best_effort,omitempty"` // race report that did not recur when the schedule was re-executed
-	RunIndex        int            `json:"run_index,omitempty"` // race reports: index of the run (0,1 = baselines) in which the report came
+	RunIndex        int            `json:"run_index,omitempty"` // index of the run (0,1 = baselines) in which the violation appeared
+	// Mode: how much history the replay re-executes. "" = baselines + the plan;
+	// "prefix" = the episode exactly as the worker ran it up to that run;
+	// "worker" = the worker's whole share of episodes up to this one. A violation
+	// that depends on state left behind by earlier runs or episodes (a per-key memo,
+	// a process-wide table) needs the longer forms.
+	Mode string `json:"replay_mode,omitempty"`
 	Minimised       bool           `json:"minimised"`
 	Episode         *Episode       `json:"episode"`
 	Plan            *simsched.Plan `json:"plan"`
